@@ -27,15 +27,15 @@ where
 /-! ### set semantics of the key lists -/
 
 theorem seteq_iff (a b : List Key) : seteq a b = true ↔ ∀ k, k ∈ a ↔ k ∈ b := by
-  sorry
+  exact seteq_iff' a b
 
 /-- every constructor failure is a `ValueError` -/
 theorem build_error_is_value (t : Term) (e : Err) (h : build t = .error e) : e = .value := by
-  sorry
+  exact build_error_value t e h
 
 /-- declared output keys never contain a key twice (they are Python sets) -/
 theorem build_output_nodup (t : Term) (σ : Sig) (h : build t = .ok σ) : σ.output.Nodup := by
-  sorry
+  exact build_output_nodup' t σ h
 
 /-! ### construction succeeds exactly when the key sets match -/
 
@@ -46,7 +46,7 @@ theorem comp_builds_iff (o i : Term) (σ : Sig) :
     build (.comp o i) = .ok σ ↔
       ∃ σo σi, build o = .ok σo ∧ build i = .ok σi ∧ (∀ k, k ∈ σo.required ↔ k ∈ σi.output) ∧
         σ = ⟨σi.required, σo.output⟩ := by
-  sorry
+  exact build_comp_ok_iff o i σ
 
 /-- Conjunction: succeeds iff all members can be built, all require the same keys, and their output
     key sets are pairwise disjoint; it then outputs the union. -/
@@ -55,13 +55,23 @@ theorem conj_builds_iff (ts : List Term) :
       ∃ sigs, buildList ts = .ok sigs ∧
         (∀ s ∈ sigs, ∀ s' ∈ sigs, ∀ k, k ∈ s.required ↔ k ∈ s'.required) ∧
         (sigs.flatMap (·.output)).Nodup := by
-  sorry
+  constructor
+  · rintro ⟨σ, h⟩
+    obtain ⟨sigs, hs, hreq, hnd, _⟩ := (build_conj_ok_iff ts σ).1 h
+    exact ⟨sigs, hs, hreq, hnd⟩
+  · rintro ⟨sigs, hs, hreq, hnd⟩
+    exact ⟨_, (build_conj_ok_iff ts _).2 ⟨sigs, hs, hreq, hnd, rfl⟩⟩
 
 theorem conj_sig (ts : List Term) (σ : Sig) (sigs : List Sig) (h : build (.conj ts) = .ok σ)
     (hs : buildList ts = .ok sigs) :
     (∀ k, k ∈ σ.output ↔ ∃ s ∈ sigs, k ∈ s.output) ∧
     (∀ k, k ∈ σ.required ↔ ∃ s ∈ sigs, k ∈ s.required) := by
-  sorry
+  obtain ⟨sigs', hs', _, _, rfl⟩ := (build_conj_ok_iff ts σ).1 h
+  rw [hs] at hs'
+  cases hs'
+  constructor
+  · intro k; simp only [List.mem_flatMap]
+  · intro k; simp only [mem_dedup, List.mem_flatMap]
 
 /-! ### application -/
 
@@ -70,25 +80,27 @@ theorem conj_sig (ts : List Term) (σ : Sig) (sigs : List Sig) (h : build (.conj
 theorem apply_wrong_keys_rejected (ks : Key → Shape) (t : Term) (σ : Sig) (d : Dict)
     (hb : build t = .ok σ) (hk : ¬ ∀ k, k ∈ σ.required ↔ k ∈ d.keys) :
     apply ks t d = .error .value := by
-  sorry
+  exact apply_wrong_keys' ks t σ d hb hk
 
 /-- a transform that cannot be built cannot be applied -/
 theorem apply_unbuildable (ks : Key → Shape) (t : Term) (e : Err) (d : Dict)
     (hb : build t = .error e) : apply ks t d = .error e := by
-  sorry
+  exact apply_unbuildable' ks t e d hb
 
 /-- TYPE SOUNDNESS (keys): whenever construction and application succeed, the input had exactly the
     required keys and the result has exactly the declared output keys -/
 theorem apply_ok_keys (ks : Key → Shape) (t : Term) (σ : Sig) (d d' : Dict)
     (hb : build t = .ok σ) (ha : apply ks t d = .ok d') :
     (∀ k, k ∈ d.keys ↔ k ∈ σ.required) ∧ (∀ k, k ∈ d'.keys ↔ k ∈ σ.output) := by
-  sorry
+  exact ⟨fun k => (apply_ok_required ks t σ d d' hb ha k).symm, apply_ok_output ks t σ d d' hb ha⟩
 
 /-- TYPE SOUNDNESS (dictionary class): the result has the most specific dictionary type common to
     the parts -/
 theorem apply_ok_type (ks : Key → Shape) (t : Term) (d d' : Dict)
     (ha : apply ks t d = .ok d') : d'.ty = tyOf t d.ty := by
-  sorry
+  exact apply_ok_type_gen ks tyOf tyOf.tyOfList (fun _ _ => rfl) (fun _ _ _ => rfl) (fun _ _ => rfl)
+    (fun _ _ => rfl) (fun _ _ => rfl) (fun _ _ => by rw [tyOf]) (fun _ _ _ => by rw [tyOf])
+    (fun _ _ => by rw [tyOf.tyOfList]) (fun _ _ _ _ => by rw [tyOf.tyOfList]) t d d' ha
 
 /-! ### the union type is the join of the class lattice -/
 
@@ -113,60 +125,61 @@ theorem lca_is_join (a b c : DType) :
 /-- composition is associative: as constructors ... -/
 theorem comp_assoc_build (a b c : Term) :
     build (.comp (.comp a b) c) = build (.comp a (.comp b c)) := by
-  sorry
+  exact comp_assoc_build' a b c
 
 /-- ... and as functions (including which error is raised) -/
 theorem comp_assoc_apply (ks : Key → Shape) (a b c : Term) (d : Dict) :
     apply ks (.comp (.comp a b) c) d = apply ks (.comp a (.comp b c)) d := by
-  sorry
+  exact comp_assoc_apply' ks a b c d
 
 /-- conjunction is commutative: both orders build or fail together, with the same key sets -/
 theorem conj_comm_build (a b : Term) :
     (∀ σ, build (.conj [a, b]) = .ok σ → ∃ σ', build (.conj [b, a]) = .ok σ' ∧
         (∀ k, k ∈ σ.required ↔ k ∈ σ'.required) ∧ (∀ k, k ∈ σ.output ↔ k ∈ σ'.output)) ∧
     (∀ e, build (.conj [a, b]) = .error e → build (.conj [b, a]) = .error e) := by
-  sorry
+  exact ⟨fun σ h => conj_comm_ok a b σ h, fun e h => conj_comm_error a b e h⟩
 
 /-- conjunction is associative on the level of constructors -/
 theorem conj_assoc_build (a b c : Term) :
     (∀ σ, build (.conj [.conj [a, b], c]) = .ok σ → ∃ σ', build (.conj [a, .conj [b, c]]) = .ok σ' ∧
         (∀ k, k ∈ σ.required ↔ k ∈ σ'.required) ∧ (∀ k, k ∈ σ.output ↔ k ∈ σ'.output)) ∧
     (∀ σ', build (.conj [a, .conj [b, c]]) = .ok σ' → ∃ σ, build (.conj [.conj [a, b], c]) = .ok σ) := by
-  sorry
+  exact ⟨fun σ h => conj_assoc_ok_left a b c σ h, fun σ' h => conj_assoc_ok_right a b c σ' h⟩
 
 /-- commutativity on the level of results: same type, same entries up to order -/
 theorem conj_comm_apply (ks : Key → Shape) (a b : Term) (d r : Dict)
     (h : apply ks (.conj [a, b]) d = .ok r) :
     ∃ r', apply ks (.conj [b, a]) d = .ok r' ∧ r'.ty = r.ty ∧ r'.entries.Perm r.entries := by
-  sorry
+  exact conj_comm_apply' ks a b d r h
 
 /-! ### dictionaries cannot be created with values whose shapes contradict their type -/
 
 theorem mk_grads_iff (ks : Key → Shape) (es : List (Key × Shape)) :
     (∃ d, mkDict ks .grads es = .ok d) ↔ ∀ e ∈ es, e.2 = ks e.1 := by
-  sorry
+  exact mkDict_grads_iff ks es
 
 theorem mk_gvecs_iff (ks : Key → Shape) (es : List (Key × Shape)) :
     (∃ d, mkDict ks .gvecs es = .ok d) ↔ ∀ e ∈ es, e.2 = [numel (ks e.1)] := by
-  sorry
+  exact mkDict_gvecs_iff ks es
 
 theorem mk_jacs_iff (ks : Key → Shape) (es : List (Key × Shape)) :
     (∃ d, mkDict ks .jacs es = .ok d) ↔
       ∃ m : Nat, ∀ e ∈ es, e.2 = m :: ks e.1 := by
-  sorry
+  exact mkDict_jacs_iff ks es
 
 theorem mk_jmats_iff (ks : Key → Shape) (es : List (Key × Shape)) :
     (∃ d, mkDict ks .jmats es = .ok d) ↔
       ∃ m : Nat, ∀ e ∈ es, e.2 = [m, numel (ks e.1)] := by
-  sorry
+  exact mkDict_jmats_iff ks es
 
 theorem mk_empty_iff (ks : Key → Shape) (es : List (Key × Shape)) :
     (∃ d, mkDict ks .empty es = .ok d) ↔ es = [] := by
-  sorry
+  exact mkDict_empty_iff ks es
 
 theorem mk_ok_preserves (ks : Key → Shape) (ty : DType) (es : List (Key × Shape)) (d : Dict)
     (h : mkDict ks ty es = .ok d) : d.ty = ty ∧ d.entries = es := by
-  sorry
+  rw [mkDict_preserves ks ty es d h]
+  exact ⟨rfl, rfl⟩
 
 /-! ### non-vacuity: a concrete well-formed pipeline in the style of `backward`
     (Accumulate ∘ Select ∘ Diagonalize-free part omitted: Aggregate/Jac are not in C14's term language) -/
@@ -176,6 +189,8 @@ example :
     let t := Term.comp (.diag [1, 0]) (.conj [.init [0], .init [1]])
     (∃ σ, build t = .ok σ ∧ σ.required = [] ∧ σ.output = [1, 0]) ∧
     (∃ d', apply ks t ⟨.empty, []⟩ = .ok d' ∧ d'.ty = .jacs ∧ d'.keys = [1, 0]) := by
-  sorry
+  intro ks t
+  refine ⟨⟨⟨[], [1, 0]⟩, rfl, rfl, rfl⟩, ⟨⟨.jacs, [(1, [3, 2]), (0, [3])]⟩, ?_, rfl, rfl⟩⟩
+  with_unfolding_all rfl
 
 end Tjd.Props.C14
